@@ -204,7 +204,11 @@ def interfere(variant):
     # other objects of the library's own classes, built with non-default options and thrown away
     from d42.generation import Generator, Random, RegexGenerator
     rnd = Random()
-    Generator(rnd, RegexGenerator(rnd, max_repeat=2, alphabet={"digits": "abcdef", "word": "-", "letters": "xyz"}))
+    _POISON[0] += 1
+    k = _POISON[0] % 20
+    Generator(rnd, RegexGenerator(rnd, max_repeat=2 + k % 3,
+                                  alphabet={"digits": "abcdefghijklmnopqrstuvwxyz"[k:k + 6], "word": "-+*"[k % 3],
+                                            "letters": "xyz"[k % 3:] + "q"}))
     # calls that end in an exception escaping from the middle of a traversal (a custom type whose
     # hooks raise, as an alternative of any / an element / a value of a key)
     if not variant:
@@ -222,6 +226,7 @@ def interfere(variant):
 
 
 _RAISING = None
+_POISON = [0]
 
 
 def _raising_custom():
@@ -245,6 +250,64 @@ def _raising_custom():
         register_type("verif_raising", VerifRaising)
         _RAISING = VerifRaising
     return _RAISING()
+
+
+def battery():
+    """A fixed set of operations on freshly built equal inputs; the tuple of their outputs must be
+    the same whenever it is taken ("repeating an operation on equal inputs gives equal results
+    regardless of what was executed in between")."""
+    import d42
+    from d42.utils import from_native, make_required, rollout
+    from . import faketape
+    s = d42.schema
+    out = []
+
+    def rec(f):
+        try:
+            out.append(repr(f()))
+        except Exception as e:  # noqa
+            out.append("raised " + type(e).__name__)
+    gens = [s.str.regex(r"\d\w."), s.str.regex(r"[^a]x[a-c]{2}"), s.str.regex(r"(?:ab|c)+\d?"), s.str.alphabet("xyz").len(3),
+            s.str.contains("ab").len(4), s.str, s.int, s.int.min(3), s.float.min(0.25).precision(2), s.bool, s.bytes,
+            s.list(s.int).len(2), s.list([s.int(1), ...]).len(3), s.dict({"a": s.int, d42.optional("b"): s.str}),
+            s.any(s.int, s.str("x")), s.alias("T", s.int.max(5))]
+    for g in gens:
+        for tape in (["lo"], ["hi"], ["lo1", "hi1"]):
+            def run(g=g, tape=tape):
+                with faketape.installed(tape):
+                    return d42.fake(g)
+            rec(run)
+        rec(lambda g=g: repr(g))
+    user = s.dict({"id": s.int.min(1), "name": s.str.len(1, 5), "tags": s.list(s.str), "x": s.any(s.int, s.none)})
+    bad_user = {"id": 0, "name": "", "tags": [1, 2], "x": "q", "extra": 1}
+    pair = s.list([s.int, s.str])
+    for sch, val in ((user, bad_user), (pair, ["a", 1, 2]), (s.any(user, pair), bad_user), (s.list(user), [bad_user, {}]),
+                     (s.float(1.0), True), (s.bool(True), 1.0), (s.int(1), 1.0)):
+        rec(lambda sch=sch, val=val: [type(e).__name__ for e in d42.validate(sch, val).get_errors()])
+        rec(lambda sch=sch, val=val: d42.validate_or_fail(sch, val))
+        rec(lambda sch=sch, val=val: sch == val)
+        rec(lambda sch=sch, val=val: d42.substitute(sch, val))
+    for v in (True, 1, 1.0, False, 0, 0.0, "", b"", [True, 1.0], {"k": 1.0, "j": True}):
+        rec(lambda v=v: from_native(v))
+    rec(lambda: make_required(user, ["id"]))
+    rec(lambda: user + s.dict({"y": s.int}))
+    rec(lambda: s.int | s.str | s.none)
+    rec(lambda: rollout({"a.b": 1, "a.c": 2, "d": 3}))
+    rec(lambda: rollout({"a/b": 1, "a.b": 2}, separator="/"))
+    rec(lambda: rollout({"a/b": 1, "a.b": 2}))
+    return tuple(out)
+
+
+_BATTERY = []
+
+
+def battery_repeats():
+    """TRUE when the battery gives what it gave the last time it was taken in this process"""
+    now = battery()
+    same = (not _BATTERY) or _BATTERY[-1] == now
+    del _BATTERY[:]
+    _BATTERY.append(now)
+    return same
 
 
 def replay(hist):
@@ -361,12 +424,13 @@ def main(chk):
     chk.require(len(hists) >= 500 and len(sim) >= nsim, "too few behaviours (%d, %d)" % (len(hists), len(sim)))
     events = []
     nb = 0
+    battery_repeats()          # the reference outputs, before anything else has been done in this process
     for hist in hists + sim:
         nb += 1
         evs = replay(hist)
         events.append({"op": "reset", "t": "", "i": 0, "j": 0, "h": 0, "c": {"m": "none", "a": []}, "items": [],
                        "pairs": [], "v": {"k": "none"}, "tape": ["lo"], "edit": "", "out": "ok", "changed": [],
-                       "heap_changed": [], "repeat_ok": True, "pool_abs": []})
+                       "heap_changed": [], "repeat_ok": battery_repeats(), "pool_abs": []})
         for k, e in enumerate(evs):
             e["behaviour"] = nb
             e["step"] = k + 1
@@ -394,8 +458,8 @@ def main(chk):
         raise core.MachineryFailure("Trace_D42: %d verdicts for %d events (TLC: %s)\n%s" % (
             len(verdicts), len(events), rest.error, "\n".join(rest.out.splitlines()[-25:])))
     chk.mc_runs.append({"module": "Trace_D42", "events": len(events), **rest.summary()})
-    real_events = [e for e in events if e["op"] != "reset"]
-    chk.absorb(real_events, verdicts, describe)
+    # (the reset events carry the verdict of the repeatability battery)
+    chk.absorb(events, verdicts, describe)
     chk.sample({"history": [dict(op) for op in (sim[0] if sim else hists[0])][:12]})
     chk.sample({"history": hists[len(hists) // 2]})
     chk.exhaustive = False
